@@ -1,5 +1,6 @@
 import Driver.Util
 import CRModel.Occupancy
+import CRModel.Place
 open Lean CR.Drv CR.Occ
 
 namespace CR.Drv.C04
@@ -43,8 +44,32 @@ def roleOf (s : String) : P Role :=
   | "static" => pure .static | "dynamic" => pure .dynamic | "phantom" => pure .phantom
   | "environment" => pure .environment | _ => throw s!"role {s}"
 
+def ptOf (j : Json) : P CR.Rigid.Pt := do
+  match ← asArr j with
+  | [x, y] => pure ⟨← asRat x, ← asRat y⟩
+  | _ => throw "point: expected [x, y]"
+
+partial def shapeOf (j : Json) : P CR.Rigid.Shape := do
+  match ← getStr j "k" with
+  | "rect" => pure (.rect (← getRat j "l") (← getRat j "w") (← ptOf (← field j "c")) (← getRat j "o"))
+  | "circ" => pure (.circ (← getRat j "r") (← ptOf (← field j "c")))
+  | "poly" => pure (.poly (← getList ptOf j "v"))
+  | "group" => pure (.group (← getList shapeOf j "s"))
+  | k => throw s!"shape kind {k}"
+
+def ptJ (p : CR.Rigid.Pt) : Json := Json.arr #[ratJ p.x, ratJ p.y]
+
+partial def shapeJ : CR.Rigid.Shape → Json
+  | .rect l w c o => Json.mkObj [("k", "rect"), ("l", ratJ l), ("w", ratJ w), ("c", ptJ c), ("o", ratJ o)]
+  | .circ r c => Json.mkObj [("k", "circ"), ("r", ratJ r), ("c", ptJ c)]
+  | .poly vs => Json.mkObj [("k", "poly"), ("v", Json.arr (vs.map ptJ).toArray)]
+  | .group ss => Json.mkObj [("k", "group"), ("s", Json.arr (ss.map shapeJ).toArray)]
+
 def handle (op : String) (a : Json) : P Json := do
   match op with
+  | "place" =>
+    let sh ← shapeOf (← field a "shape")
+    pure <| shapeJ (CR.Place.place (← getRat a "c") (← getRat a "s") (← getRat a "a") (← getRat a "tau") (← ptOf (← field a "t")) sh)
   | "obstacle_at" =>
     let o ← obstOf (← field a "obst")
     let ts ← getList asInt a "ts"
